@@ -14,7 +14,16 @@ CORE_RULE = ("validator trees generated kind-directed (every constructor, both c
              "input) and non-trivial when it was accepted by a non-trivial validator or rejected below the root")
 
 PROPS: Dict[str, Dict[str, Any]] = {
-    "C01": {"theorems": [], "stream": "core", "opts": {"salt": "c01", "special_rate": 0.05},
+    "C01": {"theorems": ["C01_never_raises_partial", "gate_noexn", "unionStep_clean", "seqStep_clean", "seqPre_clean",
+                         "scalarStep_clean", "maybeStep_clean", "knrStep_clean", "userStep_clean", "Safe_list_typed",
+                         "Safe_str_typed", "C05_recursive_terminates", "run_mono"],
+            "level_note": "proved: every run (any fuel, nesting, recursion through Lazy) of a tree made of scalar / equals / "
+                          "none / always / is-dict / list / uniform-tuple / union / optional / maybe / lazy / key-not-required "
+                          "/ user-wrapper nodes whose own predicates do not raise on what their gate lets through ends in "
+                          "Valid or Invalid (side conditions discharged for the typed string and list predicates); sets, "
+                          "n-tuples, maps and records, and termination in general, are decided by the correspondence and "
+                          "the oracle only; D2 / D3 are the open findings where the real code does raise",
+            "stream": "core", "opts": {"salt": "c01", "special_rate": 0.05},
             "quick_n": 8000, "thorough_n": 200000, "fields": ["out"]},
     "C03": {"theorems": ["loopItems_iff", "ItemsRun.sound", "ItemsRun.complete", "ItemsRun.sorted", "ItemsRun.length",
                          "ItemsRun.all_valid", "loopItems_hash", "C03_seq_container_first", "C03_pre_iff",
